@@ -470,7 +470,10 @@ func c14GenVx(g *gen) {
 		}
 		toks = append(toks, c14ShowBigs(v))
 	}
-	g.emit("C14 vx hash %s %s", p.keys(24, 6, 21), join(toks))
+	// one message per line (a disagreement names its message)
+	for _, t := range toks {
+		g.emit("C14 vx hash %s %s", p.keys(24, 6, 21), t)
+	}
 	// HashPoseidon2x16: 16 rows at once into a destination slice of leaves pre-filled with garbage
 	toks = nil
 	ns := []int{0, 16, 32, 48}
